@@ -52,7 +52,7 @@ MANIFEST = dict(
          "cancellation point, any engine history (state invariant SJ, kept by every call): a reported line is empty or starts with a "
          "move MovePreallocated accepts, and a call not reported as cancelled reports one; the window hypothesis is derived (every "
          "search value lies in [MinEval, MaxEval], from C18 and C04_live_has_legal_move), the table seed is covered by an explicit "
-         "NoCollision hypothesis on the root entry; boards up to 5x5 / 51 pieces without any side condition (_small, _game). "
+         "NoCollision hypothesis on the root entry; every board size and every game of at most 64 pieces (the standard sets of 3x3..6x6) without any side condition (_64, _game64). "
          "Monte-Carlo player: model coq/Mcts.v executed against ai/mcts pass by pass; every returned move legal for any random stream, "
          "score function and clock (C04_mcts_getmove_legal); no-panic partial. "
          "Opening book: model coq/Opening.v (BuildOpeningBook, OpeningBook.GetMove, OpeningPlayer.GetMove) executed against ai/opening.go "
@@ -65,7 +65,7 @@ MANIFEST = dict(
          "every returned move are compared with the implementation on every run.",
     ref='5.4', technique='independent Go oracle (rules + replay) over players x configurations + Coq invariant proofs + model/implementation differential on legality, MCTS passes and the opening book',
     note="Partial on the proof side: Analyze's first move is proved legal on the executed model (larger boards under the side condition withinP: "
-         "at most 690 generated moves per searched node - the model's loop fuel - and C01's 64-stack limit); GetMove's randomised choice and "
+         "C01's 64-stack limit along the searched tree; the model's loops take the node's own move count as fuel, so no bound on the number of generated moves is assumed); GetMove's randomised choice and "
          "AnalyzeAll are proved on the abstract root-search model only; whole-PV replay is covered by the oracle only; MCTS no-panic assumes evaluator totality and <= 64 pieces; "
          "opening book: 'GetMove never panics' is proved for books below 2^28 words (C04_opening_book_get_move_no_panic; beyond it rand.Int31n's argument wraps, in the code as in the model); "
          "NoCollisionOn and reserves_match_board / opening_consistent of the queried position are explicit hypotheses (a position with "
